@@ -45,7 +45,7 @@ CHECKS.update({
  "C10": ("exhaustive enumeration of DTLS declared lengths x content types x cut points + proptest-generated DTLS records, handshake headers over full 24-bit ranges and datagrams, against reference header decoders and the model encoder",
          "13-byte header fields (epoch / 48-bit sequence split), cap, Incomplete contract with exact Needed, fragment predicate and header fields verbatim, supported bodies, multi-record datagrams.",
          "Quick tier samples the cuts beyond the record end for lengths > 512 (full in thorough).", "4/C10"),
- "C11": ("exhaustive enumeration of every value of 45 enumerated wire fields inside generated well-formed templates (templates vary with the value; RFC-meaningful neighbours), plus a joint sweep of the three record-header fields",
+ "C11": ("exhaustive enumeration of every value of 47 enumerated wire fields inside generated well-formed templates (templates vary with the value; RFC-meaningful neighbours), plus a joint sweep of the three record-header fields",
          "Each field's whole integer domain is written into a well-formed structure and read back from the parsed value, for k template variants.",
          "ServerHello legacy version excluded as in the statement.", "4/C11"),
  "C13": ("proptest-generated DH / EC / signature values with an RFC reference encoder, exhaustive curve-type and named-group sweep, reference decoder for parse_content_and_signature",
